@@ -727,7 +727,7 @@ func (e *Engine) execBuiltin(fr *Frame, st *State, b *ssa.Builtin, call *ssa.Cal
 		case *types.Slice:
 			return intv(x.Fs[2].T)
 		case *types.Basic:
-			return intv(sx("str.len", x.T))
+			return intv(sx("gs.len", x.T))
 		case *types.Map:
 			return intv(e.mapLen(st, x.T))
 		case *types.Pointer:
@@ -805,9 +805,9 @@ func (e *Engine) execAppend(fr *Frame, st *State, call *ssa.CallCommon, args []V
 	var srcOf func(ci int, srt string) func(idx string) string
 	if isString(call.Args[1].Type()) {
 		str := args[1].T
-		n = sx("str.len", str)
+		n = sx("gs.len", str)
 		srcOf = func(ci int, srt string) func(string) string {
-			return func(idx string) string { return sx("str.at", str, idx) }
+			return func(idx string) string { return sx("gs.at", str, idx) }
 		}
 	} else {
 		t := args[1]
@@ -823,9 +823,14 @@ func (e *Engine) execAppend(fr *Frame, st *State, call *ssa.CallCommon, args []V
 	nlen := e.ctx.Define("alen", "Int", sx("+", ln, n))
 	e.ctx.Assume(implies(st.pc, sx("<=", nlen, maxLen))) // standing assumption: no slice exceeds 2^48 elements
 	fits := e.ctx.Define("fits", "Bool", and(sx("<=", nlen, cp), not(eq(ref, "0"))))
-	nref := e.freshRef(st, "app")
+	// The result is (rref, roff, nlen, rcap): the same array in place when the
+	// capacity suffices, otherwise a freshly allocated one.
+	fresh := e.freshRef(st, "app")
+	rref := e.ctx.Define("aref", "Int", ite(fits, ref, fresh))
+	roff := e.ctx.Define("aoff", "Int", ite(fits, off, "0"))
 	ncap := e.ctx.Declare("acap", "Int")
 	e.ctx.Assume(and(sx("<=", nlen, ncap), sx("<=", ncap, maxLen)))
+	rcap := e.ctx.Define("acap", "Int", ite(fits, cp, ncap))
 	for ci, c := range flat(el) {
 		name := memName(el, c.Suffix)
 		srtA := "(Array Int " + c.Sort + ")"
@@ -833,27 +838,22 @@ func (e *Engine) execAppend(fr *Frame, st *State, call *ssa.CallCommon, args []V
 		m := e.heapTerm(st, name, sortM)
 		old := e.ctx.Define("old", srtA, sx("select", m, ref))
 		src := srcOf(ci, srtA)
-		// in place
-		inPlace := e.copyInto(srtA, old, plus(off, ln), src, "0", n)
-		// reallocated: prefix copied to offset 0, then the new elements
-		var fresh string
+		na := e.ctx.Declare("app", srtA)
+		// kept prefix
+		e.ctx.Assume(fmt.Sprintf("(forall ((j Int)) (! (=> (and (<= %s j) (< j (+ %s %s))) (= (select %s j) (select %s (+ (- j %s) %s)))) :pattern ((select %s j))))", roff, roff, ln, na, old, roff, off, na))
+		// appended elements
 		if k, ok := litVal(n); ok && k <= 4 {
-			pfx := e.ctx.Declare("pfx", srtA)
-			e.ctx.Assume(fmt.Sprintf("(forall ((i Int)) (! (=> (and (<= 0 i) (< i %s)) (= (select %s i) (select %s (+ %s i)))) :pattern ((select %s i))))", ln, pfx, old, off, pfx))
-			fresh = e.copyInto(srtA, pfx, ln, src, "0", n)
+			for j := int64(0); j < k; j++ {
+				e.ctx.Assume(eq(sx("select", na, sx("+", roff, ln, num(j))), src(num(j))))
+			}
 		} else {
-			fresh = e.ctx.Declare("app", srtA)
-			e.ctx.Assume(fmt.Sprintf("(forall ((i Int)) (! (=> (and (<= 0 i) (< i %s)) (= (select %s i) (select %s (+ %s i)))) :pattern ((select %s i))))", ln, fresh, old, off, fresh))
-			e.ctx.Assume(fmt.Sprintf("(forall ((i Int)) (! (=> (and (<= %s i) (< i %s)) (= (select %s i) %s)) :pattern ((select %s i))))", ln, nlen, fresh, src(sx("-", "i", ln)), fresh))
+			e.ctx.Assume(fmt.Sprintf("(forall ((j Int)) (! (=> (and (<= (+ %s %s) j) (< j (+ %s %s))) (= (select %s j) %s)) :pattern ((select %s j))))", roff, ln, roff, nlen, na, src(sx("-", "j", sx("+", roff, ln))), na))
 		}
-		e.heapSet(st, name, sortM, ref, ite(fits, sx("store", m, ref, inPlace), sx("store", m, nref, fresh)))
-		e.record(func(w *WriteSet) { w.addHeap(name, nref) })
+		// in place: everything outside the appended window is untouched
+		e.ctx.Assume(fmt.Sprintf("(=> %s (forall ((j Int)) (! (=> (or (< j (+ %s %s)) (>= j (+ %s %s))) (= (select %s j) (select %s j))) :pattern ((select %s j)))))", fits, off, ln, off, nlen, na, old, na))
+		e.heapSet(st, name, sortM, rref, sx("store", m, rref, na))
 	}
-	return Val{K: KSlice, Typ: call.Args[0].Type(), Fs: []Val{
-		intv(e.ctx.Define("aref", "Int", ite(fits, ref, nref))),
-		intv(e.ctx.Define("aoff", "Int", ite(fits, off, "0"))),
-		intv(nlen),
-		intv(e.ctx.Define("acap", "Int", ite(fits, cp, ncap)))}}
+	return Val{K: KSlice, Typ: call.Args[0].Type(), Fs: []Val{intv(rref), intv(roff), intv(nlen), intv(rcap)}}
 }
 
 func (e *Engine) execCopy(fr *Frame, st *State, call *ssa.CallCommon, args []Val, pos string) Val {
@@ -861,7 +861,7 @@ func (e *Engine) execCopy(fr *Frame, st *State, call *ssa.CallCommon, args []Val
 	el := under(call.Args[0].Type()).(*types.Slice).Elem()
 	var slen string
 	if isString(call.Args[1].Type()) {
-		slen = sx("str.len", args[1].T)
+		slen = sx("gs.len", args[1].T)
 	} else {
 		slen = args[1].Fs[2].T
 	}
@@ -875,7 +875,7 @@ func (e *Engine) execCopy(fr *Frame, st *State, call *ssa.CallCommon, args []Val
 		var src func(string) string
 		if isString(call.Args[1].Type()) {
 			str := args[1].T
-			src = func(idx string) string { return sx("str.at", str, idx) }
+			src = func(idx string) string { return sx("gs.at", str, idx) }
 		} else {
 			s := args[1]
 			sarr := e.ctx.Define("src", srtA, sx("select", m, s.Fs[0].T))
